@@ -179,7 +179,8 @@ def run_session(cfg, spec, sid):
     rnd = random.Random(spec["seed"] * 1000003 + sid)
     drv = CtlDriver(cfg)
     sess = {"sid": sid, "init": drv.project(), "steps": []}
-    kinds = set(spec["kinds"])
+    # (no reconstruction calls here: the controller, its refresh hook and the id log are bound to ONE tracks object)
+    kinds = set(spec["kinds"]) - {core.K_REBUILD}
     partial = spec.get("partial", False)
     for j in range(spec["length"]):
         x = rnd.random()
